@@ -1,8 +1,866 @@
-//! engine `hasher` (stub — to be written)
+//! engine `hasher` — property C19 (batched match-index updates equal one-at-a-time updates).
+//!
+//! Search stage (real code only).  For every index kind that `HasherSetup`/`ChooseHasher`
+//! selects for quality 2..11 x lgwin x size hint (+ q9.5), and for small-table instances of the
+//! generic `AdvHasher<H5Sub>` / `AdvHasher<H6Sub>` built through their pub fields, two indexes A
+//! and B that start in the SAME state are driven over the same data:
+//!   (a) A: `Store(data, mask, ix)` for ix in [S,E), one at a time;
+//!   (b) B: `StoreRange` / `BulkStoreRange` over [S,E) in one call or split into consecutive
+//!       pieces (every split point and start alignment mod 32 for short ranges, random for long),
+//! with mask = usize::MAX and with ring-buffer masks 2^k-1 and positions beyond the mask.
+//! Oracle: `PartialEq` of the real `UnionHasher` says A == B (the first differing table entry is
+//! located through the pub fields for the report); `clone_with_alloc(B) == B`; a panic on one side
+//! only is a violation.  A and B are NOT reset between cases (the property holds from every
+//! starting state, and the tables fill up / `num` counters wrap that way); after a violation B is
+//! re-cloned from A and the case is replayed from zeroed tables for the report.
+//! The binary-tree kind (H10) is checked for `BulkStoreRange` only (its `StoreRange` thins long
+//! ranges by design).
+//!
+//! Correspondence stage.  Request line for the Lean driver:
+//!   `hasher <kind> <mask|max> <data> <op>...`     (tables start zeroed)
+//!   kind = `basic:<bucket_bits>:<sweep>:<hash_bytes>:<table_len>` | `adv32:<bucket_bits>:<block_bits>`
+//!        | `adv64:<bucket_bits>:<block_bits>:<hash_len>` | `h9`
+//!   data = hex bytes | `rep:<hexpattern>:<len>` (pattern repeated up to len bytes)
+//!   op   = `S:<s>:<e>` (Store s..e one by one) | `R:<s>:<e>` (StoreRange) | `B:<s>:<e>` (BulkStoreRange)
+//!        | `C` (continue on a clone; the answer's last field accumulates clone == source)
+//! Answer: `ok <num_digest> <buckets_digest> <nonzero_num> <nonzero_buckets> <clone_eq>` or `panic`.
+//! The digests run over (index, value) of all non-zero entries in index order (FNV, util::fnv_step),
+//! i.e. an element-wise comparison of the `num` and bucket arrays with the model's arrays.
+//!
+//! non-trivial case (rep.nontrivial): a case in which at least one piece is long enough to enter
+//! a batched path of its kind (>= 16 positions for the 4-at-a-time paths, > 32 for the 32-at-a-time
+//! path), or — for the kinds whose range/bulk entry is a plain loop — at least 2 positions.
+//!
+//! Corpus: /verif/corpus/hasher/*.txt, one request line (format above) per file, preceded by
+//! `#` comment lines; run first through the search oracle (S-ops vs R/B-ops of the same line are
+//! not related there: a corpus line `... R:s:e` is compared with `S:s:e`).
+use crate::prng::Rng;
 use crate::util::*;
+use alloc_no_stdlib::{Allocator, SliceWrapper, SliceWrapperMut};
+use alloc_stdlib::StandardAlloc;
+use brotli::enc::backward_references::{
+    AdvHasher, AnyHasher, BrotliEncoderParams, BrotliHasherParams, CloneWithAlloc, H5Sub, H6Sub,
+    H9Opts, Struct1, UnionHasher,
+};
+use brotli::enc::encode::{BrotliEncoderInitParams, HasherSetup};
+use std::panic::{catch_unwind, AssertUnwindSafe};
+
+type UH = UnionHasher<StandardAlloc>;
+
+// ---------------------------------------------------------------------------------------------
+// kinds
+
+#[derive(Clone, Debug)]
+enum Build {
+    Setup { q: i32, q95: bool, lgwin: i32, hint: usize },
+    SmallH5 { bucket_bits: i32, block_bits: i32 },
+    SmallH6 { bucket_bits: i32, block_bits: i32, hash_len: i32 },
+}
+
+#[derive(Clone, Debug, PartialEq)]
+enum Family {
+    Basic { sweep: usize },
+    Adv4,
+    Adv8,
+    H9,
+    H10,
+}
+
+#[derive(Clone, Debug)]
+struct Kind {
+    build: Build,
+    variant: &'static str,
+    family: Family,
+    /// model kind token (None for H10: not modelled concretely)
+    spec: Option<String>,
+    lookahead: usize,
+    table_bytes: usize,
+    selected_by: Vec<String>,
+}
+
+fn build(b: &Build) -> UH {
+    let mut alloc = StandardAlloc::default();
+    match *b {
+        Build::Setup { q, q95, lgwin, hint } => {
+            let mut params = BrotliEncoderInitParams();
+            params.quality = q;
+            params.q9_5 = q95;
+            params.lgwin = lgwin;
+            params.size_hint = hint;
+            let mut h: UH = UnionHasher::Uninit;
+            HasherSetup(&mut alloc, &mut h, &mut params, &[], 0, 0, 0);
+            h
+        }
+        Build::SmallH5 { bucket_bits, block_bits } => {
+            let hp = BrotliHasherParams { type_: 5, block_bits, bucket_bits, hash_len: 4, num_last_distances_to_check: 4, literal_byte_score: 0 };
+            let bucket_size = 1usize << bucket_bits;
+            let block_size = 1usize << block_bits;
+            UnionHasher::H5(AdvHasher {
+                GetHasherCommon: Struct1 { params: hp, is_prepared_: 1, dict_num_lookups: 0, dict_num_matches: 0 },
+                specialization: H5Sub { hash_shift_: 32 - bucket_bits, bucket_size_: bucket_size as u32, block_mask_: (block_size - 1) as u32, block_bits_: block_bits },
+                num: <StandardAlloc as Allocator<u16>>::alloc_cell(&mut alloc, bucket_size),
+                buckets: <StandardAlloc as Allocator<u32>>::alloc_cell(&mut alloc, bucket_size * block_size),
+                h9_opts: H9Opts::new(&hp),
+            })
+        }
+        Build::SmallH6 { bucket_bits, block_bits, hash_len } => {
+            let hp = BrotliHasherParams { type_: 6, block_bits, bucket_bits, hash_len, num_last_distances_to_check: 4, literal_byte_score: 0 };
+            let bucket_size = 1usize << bucket_bits;
+            let block_size = 1usize << block_bits;
+            UnionHasher::H6(AdvHasher {
+                GetHasherCommon: Struct1 { params: hp, is_prepared_: 1, dict_num_lookups: 0, dict_num_matches: 0 },
+                specialization: H6Sub { hash_mask: u64::MAX >> (64 - 8 * hash_len), hash_shift_: 64 - bucket_bits, bucket_size_: bucket_size as u32, block_mask_: (block_size - 1) as u32, block_bits_: block_bits },
+                num: <StandardAlloc as Allocator<u16>>::alloc_cell(&mut alloc, bucket_size),
+                buckets: <StandardAlloc as Allocator<u32>>::alloc_cell(&mut alloc, bucket_size * block_size),
+                h9_opts: H9Opts::new(&hp),
+            })
+        }
+    }
+}
+
+fn num_slice(h: &UH) -> &[u16] {
+    match h {
+        UnionHasher::H5(x) => x.num.slice(),
+        UnionHasher::H5q5(x) => x.num.slice(),
+        UnionHasher::H5q7(x) => x.num.slice(),
+        UnionHasher::H6(x) => x.num.slice(),
+        UnionHasher::H9(x) => x.num_.slice(),
+        _ => &[],
+    }
+}
+fn bucket_slice(h: &UH) -> &[u32] {
+    match h {
+        UnionHasher::H2(x) => x.buckets_.buckets_.slice(),
+        UnionHasher::H3(x) => x.buckets_.buckets_.slice(),
+        UnionHasher::H4(x) => x.buckets_.buckets_.slice(),
+        UnionHasher::H54(x) => x.buckets_.buckets_.slice(),
+        UnionHasher::H5(x) => x.buckets.slice(),
+        UnionHasher::H5q5(x) => x.buckets.slice(),
+        UnionHasher::H5q7(x) => x.buckets.slice(),
+        UnionHasher::H6(x) => x.buckets.slice(),
+        UnionHasher::H9(x) => x.buckets_.slice(),
+        UnionHasher::H10(x) => x.buckets_.slice(),
+        UnionHasher::Uninit => &[],
+    }
+}
+fn forest_slice(h: &UH) -> &[u32] {
+    match h {
+        UnionHasher::H10(x) => x.forest.slice(),
+        _ => &[],
+    }
+}
+fn zero_tables(h: &mut UH) {
+    match h {
+        UnionHasher::H2(x) => x.buckets_.buckets_.slice_mut().fill(0),
+        UnionHasher::H3(x) => x.buckets_.buckets_.slice_mut().fill(0),
+        UnionHasher::H4(x) => x.buckets_.buckets_.slice_mut().fill(0),
+        UnionHasher::H54(x) => x.buckets_.buckets_.slice_mut().fill(0),
+        UnionHasher::H5(x) => { x.buckets.slice_mut().fill(0); x.num.slice_mut().fill(0) }
+        UnionHasher::H5q5(x) => { x.buckets.slice_mut().fill(0); x.num.slice_mut().fill(0) }
+        UnionHasher::H5q7(x) => { x.buckets.slice_mut().fill(0); x.num.slice_mut().fill(0) }
+        UnionHasher::H6(x) => { x.buckets.slice_mut().fill(0); x.num.slice_mut().fill(0) }
+        UnionHasher::H9(x) => { x.buckets_.slice_mut().fill(0); x.num_.slice_mut().fill(0) }
+        _ => {}
+    }
+}
+
+fn describe(b: &Build) -> Kind {
+    let h = build(b);
+    let log2 = |x: usize| (usize::BITS - 1 - x.leading_zeros()) as usize;
+    let (variant, family, spec, lookahead): (&'static str, Family, Option<String>, usize) = match &h {
+        UnionHasher::H2(x) => ("H2", Family::Basic { sweep: 1 }, Some(format!("basic:16:1:5:{}", x.buckets_.buckets_.slice().len())), 8),
+        UnionHasher::H3(x) => ("H3", Family::Basic { sweep: 2 }, Some(format!("basic:16:2:5:{}", x.buckets_.buckets_.slice().len())), 8),
+        UnionHasher::H4(x) => ("H4", Family::Basic { sweep: 4 }, Some(format!("basic:17:4:5:{}", x.buckets_.buckets_.slice().len())), 8),
+        UnionHasher::H54(x) => ("H54", Family::Basic { sweep: 4 }, Some(format!("basic:20:4:7:{}", x.buckets_.buckets_.slice().len())), 8),
+        UnionHasher::H5(x) => ("H5", Family::Adv4, Some(format!("adv32:{}:{}", 32 - x.specialization.hash_shift_, x.specialization.block_bits_)), 4),
+        UnionHasher::H5q5(_) => ("H5q5", Family::Adv4, Some("adv32:14:4".to_string()), 4),
+        UnionHasher::H5q7(_) => ("H5q7", Family::Adv4, Some("adv32:15:6".to_string()), 4),
+        UnionHasher::H6(x) => ("H6", Family::Adv8, Some(format!("adv64:{}:{}:{}", 64 - x.specialization.hash_shift_, x.specialization.block_bits_, x.specialization.hash_mask.count_ones() / 8)), 8),
+        UnionHasher::H9(_) => ("H9", Family::H9, Some("h9".to_string()), 4),
+        UnionHasher::H10(_) => ("H10", Family::H10, None, 128),
+        UnionHasher::Uninit => ("Uninit", Family::H9, None, 0),
+    };
+    let _ = log2;
+    let table_bytes = bucket_slice(&h).len() * 4 + num_slice(&h).len() * 2 + forest_slice(&h).len() * 4;
+    Kind { build: b.clone(), variant, family, spec, lookahead, table_bytes, selected_by: vec![] }
+}
+
+/// every kind selected by quality x q9.5 x lgwin x size hint, de-duplicated by (variant, model spec / lgwin for H10)
+fn selected_kinds(thorough: bool) -> Vec<Kind> {
+    let mut out: Vec<Kind> = vec![];
+    let lgwins: &[i32] = if thorough { &[10, 12, 16, 17, 18, 19, 22, 24] } else { &[10, 16, 17, 18, 19, 22, 24] };
+    let hints: &[usize] = &[0, 1 << 20, (1 << 20) + 1, (1 << 22) + 1];
+    for q in 2..=11 {
+        for &q95 in &[false, true] {
+            if q95 && q < 10 {
+                continue;
+            }
+            for &lgwin in lgwins {
+                if q >= 10 && !q95 && lgwin > 18 {
+                    continue; // H10 allocates 8 bytes << lgwin; the kind does not depend on lgwin beyond the window mask
+                }
+                for &hint in hints {
+                    let b = Build::Setup { q, q95, lgwin, hint };
+                    let k = describe(&b);
+                    let key = match &k.spec {
+                        Some(s) => format!("{}/{}", k.variant, s),
+                        None => format!("{}/lgwin{}", k.variant, lgwin),
+                    };
+                    let tag = format!("q{}{} lgwin{} hint{}", q, if q95 { "(9.5)" } else { "" }, lgwin, hint);
+                    if let Some(e) = out.iter_mut().find(|e| {
+                        let ekey = match &e.spec {
+                            Some(s) => format!("{}/{}", e.variant, s),
+                            None => match e.build { Build::Setup { lgwin, .. } => format!("{}/lgwin{}", e.variant, lgwin), _ => String::new() },
+                        };
+                        ekey == key
+                    }) {
+                        if e.selected_by.len() < 4 {
+                            e.selected_by.push(tag);
+                        }
+                    } else {
+                        let mut k = k;
+                        k.selected_by.push(tag);
+                        out.push(k);
+                    }
+                }
+            }
+        }
+    }
+    out
+}
+
+fn small_kinds() -> Vec<Kind> {
+    let mut v = vec![];
+    for &(bb, kb) in &[(4, 1), (6, 2), (8, 3), (10, 4)] {
+        v.push(describe(&Build::SmallH5 { bucket_bits: bb, block_bits: kb }));
+    }
+    for &(bb, kb, hl) in &[(5, 1, 5), (8, 2, 8), (9, 3, 6)] {
+        v.push(describe(&Build::SmallH6 { bucket_bits: bb, block_bits: kb, hash_len: hl }));
+    }
+    for k in v.iter_mut() {
+        k.selected_by.push("small-table instance of the generic type (pub fields)".to_string());
+    }
+    v
+}
+
+// ---------------------------------------------------------------------------------------------
+// cases
+
+#[derive(Clone, Debug)]
+enum DataSpec {
+    Bytes(Vec<u8>),
+    Rep(Vec<u8>, usize),
+}
+impl DataSpec {
+    fn bytes(&self) -> Vec<u8> {
+        match self {
+            DataSpec::Bytes(b) => b.clone(),
+            DataSpec::Rep(p, n) => (0..*n).map(|i| p[i % p.len()]).collect(),
+        }
+    }
+    fn token(&self) -> String {
+        match self {
+            DataSpec::Bytes(b) => hex(b),
+            DataSpec::Rep(p, n) => format!("rep:{}:{}", hex(p), n),
+        }
+    }
+}
+
+#[derive(Clone, Copy, Debug, PartialEq)]
+enum Entry {
+    Store, // one at a time
+    Range,
+    Bulk,
+}
+#[derive(Clone, Debug)]
+struct Op {
+    entry: Entry,
+    s: usize,
+    e: usize,
+}
+fn ops_token(ops: &[Op]) -> String {
+    ops.iter()
+        .map(|o| format!("{}:{}:{}", match o.entry { Entry::Store => "S", Entry::Range => "R", Entry::Bulk => "B" }, o.s, o.e))
+        .collect::<Vec<_>>()
+        .join(" ")
+}
+fn mask_token(mask: usize) -> String {
+    if mask == usize::MAX { "max".to_string() } else { mask.to_string() }
+}
+
+fn apply(h: &mut UH, data: &[u8], mask: usize, ops: &[Op]) -> bool {
+    catch_unwind(AssertUnwindSafe(|| {
+        for o in ops {
+            match o.entry {
+                Entry::Store => {
+                    for ix in o.s..o.e {
+                        h.Store(data, mask, ix);
+                    }
+                }
+                Entry::Range => h.StoreRange(data, mask, o.s, o.e),
+                Entry::Bulk => h.BulkStoreRange(data, mask, o.s, o.e),
+            }
+        }
+    }))
+    .is_ok()
+}
+
+fn first_diff(a: &UH, b: &UH) -> String {
+    let (na, nb) = (num_slice(a), num_slice(b));
+    if na.len() != nb.len() {
+        return format!("num.len {} vs {}", na.len(), nb.len());
+    }
+    let nd = na.iter().zip(nb).filter(|(x, y)| x != y).count();
+    let (ba, bb) = (bucket_slice(a), bucket_slice(b));
+    if ba.len() != bb.len() {
+        return format!("buckets.len {} vs {}", ba.len(), bb.len());
+    }
+    let bd = ba.iter().zip(bb).filter(|(x, y)| x != y).count();
+    let (fa, fb) = (forest_slice(a), forest_slice(b));
+    let fd = fa.iter().zip(fb).filter(|(x, y)| x != y).count();
+    let mut s = format!("{} num / {} bucket / {} forest entries differ", nd, bd, fd);
+    if let Some(i) = na.iter().zip(nb).position(|(x, y)| x != y) {
+        s.push_str(&format!("; first num[{}]: one-at-a-time {} vs batched {}", i, na[i], nb[i]));
+    }
+    if let Some(i) = ba.iter().zip(bb).position(|(x, y)| x != y) {
+        s.push_str(&format!("; first buckets[{}]: one-at-a-time {} vs batched {}", i, ba[i], bb[i]));
+    }
+    if nd == 0 && bd == 0 && fd == 0 {
+        s.push_str("; tables equal: the difference is in the common/params fields");
+    }
+    s
+}
+
+fn digest_u16(xs: &[u16]) -> (u64, u64) {
+    let mut h = FNV_INIT;
+    let mut n = 0u64;
+    for (i, &v) in xs.iter().enumerate() {
+        if v != 0 {
+            h = fnv_step(fnv_step(h, i as u64), v as u64);
+            n += 1;
+        }
+    }
+    (h, n)
+}
+fn digest_u32(xs: &[u32]) -> (u64, u64) {
+    let mut h = FNV_INIT;
+    let mut n = 0u64;
+    for (i, &v) in xs.iter().enumerate() {
+        if v != 0 {
+            h = fnv_step(fnv_step(h, i as u64), v as u64);
+            n += 1;
+        }
+    }
+    (h, n)
+}
+
+/// a generated case: data, mask, the range as consecutive pieces
+#[derive(Clone, Debug)]
+struct Case {
+    data: DataSpec,
+    mask: usize,
+    pieces: Vec<Op>, // consecutive, entries Range/Bulk
+    gen: &'static str,
+}
+impl Case {
+    fn s(&self) -> usize { self.pieces.first().map(|p| p.s).unwrap_or(0) }
+    fn e(&self) -> usize { self.pieces.last().map(|p| p.e).unwrap_or(0) }
+}
+
+fn gen_bytes(rng: &mut Rng, n: usize) -> Vec<u8> {
+    // mostly-structured bytes: small alphabets and repeats make keys collide (bucket reuse, num growth)
+    let style = rng.below(6);
+    let mut v = Vec::with_capacity(n);
+    match style {
+        0 => { for _ in 0..n { v.push(rng.next() as u8); } }
+        1 => { let a = rng.range(1, 4) as u8; for _ in 0..n { v.push(b'a' + (rng.below(a as u64) as u8)); } }
+        2 => {
+            // text-like with repeated words
+            let words: Vec<Vec<u8>> = (0..rng.range(2, 9)).map(|_| (0..rng.range(1, 9)).map(|_| b'a' + rng.below(26) as u8).collect()).collect();
+            while v.len() < n { let w = rng.pick(&words).clone(); v.extend_from_slice(&w); v.push(b' '); }
+            v.truncate(n);
+        }
+        3 => { let p: Vec<u8> = (0..rng.range(1, 12)).map(|_| rng.next() as u8).collect(); for i in 0..n { v.push(p[i % p.len()]); } }
+        4 => { let b = rng.next() as u8; for _ in 0..n { v.push(b); } }
+        _ => {
+            // runs
+            while v.len() < n { let b = rng.below(4) as u8; let l = rng.range(1, 40) as usize; for _ in 0..l { v.push(b); } }
+            v.truncate(n);
+        }
+    }
+    v
+}
+
+/// ring-buffer shaped data: len = mask+1+tail; with `mirror` the tail repeats the head (as RingBufferWrite keeps it)
+fn gen_ring(rng: &mut Rng, mask: usize, tail: usize, mirror: bool) -> Vec<u8> {
+    let mut v = gen_bytes(rng, mask + 1 + tail);
+    if mirror {
+        for k in 0..tail {
+            v[mask + 1 + k] = v[k % (mask + 1)];
+        }
+    }
+    v
+}
+
+fn split_pieces(rng: &mut Rng, s: usize, e: usize, cuts: &[usize], entry_mode: u64) -> Vec<Op> {
+    let mut pts = vec![s];
+    for &c in cuts {
+        if c > s && c < e { pts.push(c); }
+    }
+    pts.push(e);
+    pts.sort();
+    pts.dedup();
+    if pts.len() == 1 { pts.push(e); }
+    let mut out = vec![];
+    for w in pts.windows(2) {
+        let entry = match entry_mode { 0 => Entry::Range, 1 => Entry::Bulk, _ => if rng.chance(1, 2) { Entry::Range } else { Entry::Bulk } };
+        out.push(Op { entry, s: w[0], e: w[1] });
+    }
+    out
+}
+
+// ---------------------------------------------------------------------------------------------
+// the oracle on one case
+
+struct Pair {
+    kind: Kind,
+    a: UH,
+    b: UH,
+}
+
+fn fast_path_taken(kind: &Kind, mask: usize, p: &Op) -> Option<&'static str> {
+    let n = p.e.saturating_sub(p.s);
+    match kind.family {
+        Family::Basic { .. } => if n >= 16 { Some("fast.basic4") } else { None },
+        Family::Adv4 => match p.entry {
+            Entry::Range => if n >= 8 { Some("fast.batch4") } else { None },
+            Entry::Bulk => if mask == usize::MAX && n > 32 { Some("fast.memfetch32") } else { None },
+            _ => None,
+        },
+        _ => None,
+    }
+}
+
+fn signature(kind: &Kind, case: &Case, what: &str) -> String {
+    let fam = match kind.family {
+        Family::Basic { sweep: 1 } => "basic1",
+        Family::Basic { .. } => "basicN",
+        Family::Adv4 => "adv4",
+        Family::Adv8 => "adv8",
+        Family::H9 => "h9",
+        Family::H10 => "h10",
+    };
+    let entries: Vec<Entry> = case.pieces.iter().map(|p| p.entry).collect();
+    let ent = if entries.iter().all(|e| *e == Entry::Range) { "range" } else if entries.iter().all(|e| *e == Entry::Bulk) { "bulk" } else { "mixed" };
+    let m = if case.mask == usize::MAX { "nomask" } else { "masked" };
+    format!("hasher:{}:{}:{}:{}", what, ent, fam, m)
+}
+
+fn case_json(kind: &Kind, case: &Case, seed: u64) -> String {
+    format!(
+        "{{\"kind\": {}, \"build\": {}, \"model_kind\": {}, \"mask\": {}, \"data\": {}, \"pieces\": {}, \"gen\": {}, \"seed\": {}}}",
+        jstr(kind.variant),
+        jstr(&format!("{:?}", kind.build)),
+        jstr(kind.spec.as_deref().unwrap_or("-")),
+        jstr(&mask_token(case.mask)),
+        jstr(&{ let t = case.data.token(); if t.len() > 4000 { format!("{}...({} hex chars)", &t[..4000], t.len()) } else { t } }),
+        jstr(&ops_token(&case.pieces)),
+        jstr(case.gen),
+        seed
+    )
+}
+
+/// returns true if the case passed
+fn viol(rep: &mut Report, sig: &str, what: &str, case: String) {
+    rep.count(&format!("viol.{}", sig));
+    if !rep.violations.iter().any(|v| v.signature == sig) {
+        rep.violations.push(Violation { signature: sig.to_string(), what: what.to_string(), case });
+    }
+}
+
+fn run_case(pair: &mut Pair, case: &Case, data: &[u8], rep: &mut Report, seed: u64) -> bool {
+    rep.evaluations += 1;
+    let kind = pair.kind.clone();
+    let (s, e) = (case.s(), case.e());
+    let seq = [Op { entry: Entry::Store, s, e }];
+    let mut nontriv = false;
+    for p in &case.pieces {
+        if let Some(c) = fast_path_taken(&kind, case.mask, p) {
+            rep.count(c);
+            nontriv = true;
+        }
+    }
+    if !nontriv && !matches!(kind.family, Family::Basic { .. } | Family::Adv4) && e >= s + 2 {
+        nontriv = true;
+    }
+    if nontriv { rep.nontrivial += 1; }
+    rep.count(&format!("kind.{}", kind.variant));
+    if case.mask != usize::MAX {
+        rep.count("mask.ring");
+        if e > 0 && e - 1 > case.mask { rep.count("pos.beyond_mask"); }
+        if e > s && (s & case.mask) > ((e - 1) & case.mask) { rep.count("range.straddles_wrap"); }
+    } else {
+        rep.count("mask.none");
+    }
+    rep.count(&format!("pieces.{}", case.pieces.len().min(5)));
+    rep.count(&format!("start_mod32.{:02}", s % 32));
+    let ok_a = apply(&mut pair.a, data, case.mask, &seq);
+    let ok_b = apply(&mut pair.b, data, case.mask, &case.pieces);
+    let mut pass = true;
+    if ok_a != ok_b {
+        pass = false;
+        viol(rep, 
+            &signature(&kind, case, "panic-mismatch"),
+            &format!("one-at-a-time {} but batched {}", if ok_a { "completed" } else { "panicked" }, if ok_b { "completed" } else { "panicked" }),
+            case_json(&kind, case, seed),
+        );
+    } else if !ok_a {
+        rep.count("both.panic");
+    } else if pair.a != pair.b {
+        pass = false;
+        // replay from zeroed tables for a self-contained report
+        let mut fa = build(&kind.build);
+        let mut fb = build(&kind.build);
+        let _ = apply(&mut fa, data, case.mask, &seq);
+        let _ = apply(&mut fb, data, case.mask, &case.pieces);
+        let fresh = if fa != fb { format!("from zeroed tables: {}", first_diff(&fa, &fb)) } else { format!("only from the accumulated state: {}", first_diff(&pair.a, &pair.b)) };
+        viol(rep, &signature(&kind, case, "neq-store"), &format!("index after batched update != index after one-at-a-time update; {}", fresh), case_json(&kind, case, seed));
+    } else {
+        if e > s && num_slice(&pair.a).iter().any(|&n| n == u16::MAX) { rep.count("num.near_wrap"); }
+    }
+    if !pass || !ok_a {
+        // resynchronise
+        pair.a = build(&kind.build);
+        let mut alloc = StandardAlloc::default();
+        pair.b = pair.a.clone_with_alloc(&mut alloc);
+    }
+    pass
+}
+
+fn check_clone(pair: &Pair, rep: &mut Report, seed: u64) {
+    let mut alloc = StandardAlloc::default();
+    let c = pair.a.clone_with_alloc(&mut alloc);
+    rep.count("clone.checked");
+    if !(c == pair.a) || !(pair.a == c) {
+        rep.violation(&format!("hasher:clone-neq:{}", pair.kind.variant), &format!("clone_with_alloc(x) != x; {}", first_diff(&pair.a, &c)), format!("{{\"kind\": {}, \"seed\": {}}}", jstr(pair.kind.variant), seed));
+    }
+    // element-wise through the pub fields as well
+    if num_slice(&c) != num_slice(&pair.a) || bucket_slice(&c) != bucket_slice(&pair.a) || forest_slice(&c) != forest_slice(&pair.a) {
+        rep.violation(&format!("hasher:clone-tables-neq:{}", pair.kind.variant), "tables of the clone differ element-wise", format!("{{\"kind\": {}, \"seed\": {}}}", jstr(pair.kind.variant), seed));
+    }
+}
+
+// ---------------------------------------------------------------------------------------------
+// generators of cases per kind
+
+fn entry_modes(kind: &Kind) -> &'static [u64] {
+    match kind.family {
+        Family::H10 => &[1],          // bulk only
+        Family::Basic { .. } => &[0, 1, 2],
+        _ => &[0, 1, 2],
+    }
+}
+
+/// short ranges, mask = MAX: every start alignment mod 32, every length 0..=maxlen, one call and every single split point
+/// (sampled when the tables are large)
+fn gen_short_nomask(kind: &Kind, rng: &mut Rng, budget: usize, out: &mut Vec<Case>) {
+    let la = kind.lookahead;
+    let maxlen = 72usize;
+    let data = gen_bytes(rng, 64 + 32 + maxlen + la + 16);
+    let base = 32 * rng.range(0, 2) as usize;
+    let mut all: Vec<(usize, usize, Option<usize>, u64)> = vec![];
+    for a in 0..32 {
+        for l in 0..=maxlen {
+            for &m in entry_modes(kind) {
+                all.push((a, l, None, m));
+                for cut in 1..l {
+                    all.push((a, l, Some(cut), m));
+                }
+            }
+        }
+    }
+    let take = budget.min(all.len());
+    // deterministic sample: stride through a shuffled order when over budget
+    if take < all.len() {
+        for i in 0..take {
+            let j = i + rng.below((all.len() - i) as u64) as usize;
+            all.swap(i, j);
+        }
+        all.truncate(take);
+    }
+    for (a, l, cut, m) in all {
+        let s = base + a;
+        let e = s + l;
+        let cuts: Vec<usize> = cut.map(|c| vec![s + c]).unwrap_or_default();
+        out.push(Case { data: DataSpec::Bytes(data.clone()), mask: usize::MAX, pieces: split_pieces(rng, s, e, &cuts, m), gen: "short-nomask" });
+    }
+}
+
+/// short ranges under a ring mask, positions beyond the mask: around the wrap point and elsewhere
+fn gen_short_ring(kind: &Kind, rng: &mut Rng, budget: usize, out: &mut Vec<Case>) {
+    let la = kind.lookahead;
+    for _ in 0..budget {
+        let lg = *rng.pick(&[6u32, 7, 8, 10, 12]);
+        if kind.family == Family::H10 && lg < 9 { continue; }
+        let mask = (1usize << lg) - 1;
+        let tail = if rng.chance(1, 8) { la - 1 + 3 } else { la + 16 + rng.below(64) as usize };
+        let mirror = rng.chance(3, 4);
+        let data = gen_ring(rng, mask, tail.max(if kind.family == Family::H10 { 160 } else { 0 }), mirror);
+        let wraps = rng.range(0, 5) as usize;
+        let l = rng.range(0, (72usize).min(mask / 2) as u64) as usize;
+        let s = if rng.chance(2, 3) {
+            // near the wrap point
+            (wraps + 1) * (mask + 1) - rng.below(l as u64 + 8).min(mask as u64) as usize
+        } else {
+            wraps * (mask + 1) + rng.below(mask as u64 + 1) as usize
+        };
+        let e = s + l;
+        let ncuts = rng.below(3) as usize;
+        let cuts: Vec<usize> = (0..ncuts).map(|_| s + rng.below(l as u64 + 1) as usize).collect();
+        let m = *rng.pick(entry_modes(kind));
+        out.push(Case { data: DataSpec::Bytes(data), mask, pieces: split_pieces(rng, s, e, &cuts, m), gen: if mirror { "short-ring-mirrored" } else { "short-ring-arbitrary" } });
+    }
+}
+
+/// long ranges: random data up to ~20 KB (fits a request line), random partitions
+fn gen_long(kind: &Kind, rng: &mut Rng, budget: usize, out: &mut Vec<Case>) {
+    let la = kind.lookahead.max(if kind.family == Family::H10 { 160 } else { 0 });
+    for _ in 0..budget {
+        let ring = rng.chance(1, 2);
+        let (data, mask, span) = if ring {
+            let lg = *rng.pick(&[10u32, 11, 12, 13]);
+            let mask = (1usize << lg) - 1;
+            let tail = la + 16 + rng.below(200) as usize;
+            { let mir = rng.chance(3, 4); (gen_ring(rng, mask, tail, mir), mask, 6 * (mask + 1)) }
+        } else {
+            let n = rng.range(200, 20000) as usize;
+            (gen_bytes(rng, n + la + 16), usize::MAX, n)
+        };
+        let s = rng.below(span as u64 / 2) as usize;
+        let maxl = if ring { (mask / 2).min(span - s) } else { span - s };
+        let l = rng.below(maxl as u64 + 1) as usize;
+        let e = s + l;
+        let ncuts = rng.below(6) as usize;
+        let cuts: Vec<usize> = (0..ncuts).map(|_| s + rng.below(l as u64 + 1) as usize).collect();
+        let m = *rng.pick(entry_modes(kind));
+        out.push(Case { data: DataSpec::Bytes(data), mask, pieces: split_pieces(rng, s, e, &cuts, m), gen: if ring { "long-ring" } else { "long-nomask" } });
+    }
+}
+
+/// very long repetitive data (a `num` counter passes 65535): pattern repeated
+fn gen_rep(kind: &Kind, rng: &mut Rng, budget: usize, out: &mut Vec<Case>) {
+    if kind.family == Family::H10 { return; }
+    for _ in 0..budget {
+        let plen = rng.range(1, 3) as usize;
+        let p: Vec<u8> = (0..plen).map(|_| rng.next() as u8).collect();
+        let n = rng.range(66000, 140000) as usize;
+        let s = rng.below(40) as usize;
+        let e = n - kind.lookahead - rng.below(40) as usize;
+        let ncuts = rng.below(4) as usize;
+        let cuts: Vec<usize> = (0..ncuts).map(|_| s + rng.below((e - s) as u64 + 1) as usize).collect();
+        let m = *rng.pick(entry_modes(kind));
+        out.push(Case { data: DataSpec::Rep(p, n), mask: usize::MAX, pieces: split_pieces(rng, s, e, &cuts, m), gen: "rep-long" });
+    }
+}
+
+// ---------------------------------------------------------------------------------------------
+// correspondence: one line = zeroed tables, ops, digests
+
+fn corr_line(kind: &Kind, data: &DataSpec, mask: usize, ops: &[(Option<Op>, bool)]) -> Option<(String, String)> {
+    // ops: (Some(op), _) or (None, true) = clone
+    let spec = kind.spec.as_ref()?;
+    let bytes = data.bytes();
+    let mut toks: Vec<String> = vec![];
+    let mut h = build(&kind.build);
+    zero_tables(&mut h);
+    let mut clone_eq = true;
+    let mut ok = true;
+    for (op, _) in ops {
+        match op {
+            Some(o) => {
+                toks.push(ops_token(std::slice::from_ref(o)));
+                if ok { ok = apply(&mut h, &bytes, mask, std::slice::from_ref(o)); }
+            }
+            None => {
+                toks.push("C".to_string());
+                if ok {
+                    let mut alloc = StandardAlloc::default();
+                    let c = h.clone_with_alloc(&mut alloc);
+                    clone_eq &= c == h;
+                    h = c;
+                }
+            }
+        }
+    }
+    let req = format!("hasher {} {} {} {}", spec, mask_token(mask), data.token(), toks.join(" "));
+    if req.len() >= 65000 { return None; }
+    let ans = if !ok {
+        "panic".to_string()
+    } else {
+        let (dn, cn) = digest_u16(num_slice(&h));
+        let (db, cb) = digest_u32(bucket_slice(&h));
+        format!("ok {} {} {} {} {}", dn, db, cn, cb, if clone_eq { 1 } else { 0 })
+    };
+    Some((req, ans))
+}
+
+fn corr_for_case(kind: &Kind, case: &Case, rng: &mut Rng, lines: &mut Vec<(String, String)>) {
+    if kind.spec.is_none() { return; }
+    let (s, e) = (case.s(), case.e());
+    // (1) the batched procedure, (2) the one-at-a-time procedure, optionally after a pre-fill and with a clone in between
+    let mut pre: Vec<(Option<Op>, bool)> = vec![];
+    if rng.chance(1, 3) && s >= 8 {
+        let ps = rng.below(s as u64 / 2) as usize;
+        pre.push((Some(Op { entry: Entry::Store, s: ps, e: ps + rng.below((s - ps) as u64) as usize }), false));
+    }
+    let mut b = pre.clone();
+    for (i, p) in case.pieces.iter().enumerate() {
+        b.push((Some(p.clone()), false));
+        if i == 0 && rng.chance(1, 4) { b.push((None, true)); }
+    }
+    if let Some(l) = corr_line(kind, &case.data, case.mask, &b) { lines.push(l); }
+    if rng.chance(1, 2) {
+        let mut a = pre;
+        a.push((Some(Op { entry: Entry::Store, s, e }), false));
+        a.push((None, true));
+        if let Some(l) = corr_line(kind, &case.data, case.mask, &a) { lines.push(l); }
+    }
+}
+
+// ---------------------------------------------------------------------------------------------
+// corpus
+
+fn parse_line(line: &str) -> Option<(String, usize, DataSpec, Vec<Op>)> {
+    let t: Vec<&str> = line.split_whitespace().collect();
+    if t.len() < 4 || t[0] != "hasher" { return None; }
+    let mask = if t[2] == "max" { usize::MAX } else { t[2].parse().ok()? };
+    let data = if let Some(r) = t[3].strip_prefix("rep:") {
+        let f: Vec<&str> = r.split(':').collect();
+        DataSpec::Rep(unhex(f[0]), f[1].parse().ok()?)
+    } else {
+        DataSpec::Bytes(unhex(t[3]))
+    };
+    let mut ops = vec![];
+    for o in &t[4..] {
+        let f: Vec<&str> = o.split(':').collect();
+        if f.len() != 3 { continue; }
+        let entry = match f[0] { "S" => Entry::Store, "R" => Entry::Range, "B" => Entry::Bulk, _ => return None };
+        ops.push(Op { entry, s: f[1].parse().ok()?, e: f[2].parse().ok()? });
+    }
+    Some((t[1].to_string(), mask, data, ops))
+}
+
+// ---------------------------------------------------------------------------------------------
+
 pub fn run_cmd(args: &Args) {
-    let corr = Corr::new(&args.out);
-    let rep = Report::default();
+    let thorough = args.tier == "thorough";
+    let seed = args.seed;
+    let mut corr = Corr::new(&args.out);
+    let mut rep = Report::default();
+
+    let mut kinds = selected_kinds(thorough);
+    for k in &kinds {
+        rep.sample(format!("{} model={} tables={}B selected by {}", k.variant, k.spec.as_deref().unwrap_or("-"), k.table_bytes, k.selected_by.join(" | ")));
+    }
+    rep.add("kinds.selected", kinds.len() as u64);
+    kinds.extend(small_kinds());
+    rep.add("kinds.total", kinds.len() as u64);
+
+    // corpus first
+    let corpus_dir = std::path::Path::new("/verif/corpus/hasher");
+    if let Ok(rd) = std::fs::read_dir(corpus_dir) {
+        let mut files: Vec<_> = rd.filter_map(|e| e.ok()).map(|e| e.path()).collect();
+        files.sort();
+        for f in files {
+            let txt = std::fs::read_to_string(&f).unwrap_or_default();
+            for line in txt.lines().filter(|l| !l.starts_with('#') && !l.trim().is_empty()) {
+                if let Some((spec, mask, data, ops)) = parse_line(line) {
+                    if let Some(kind) = kinds.iter().find(|k| k.spec.as_deref() == Some(spec.as_str())) {
+                        let pieces: Vec<Op> = ops.iter().filter(|o| o.entry != Entry::Store).cloned().collect();
+                        if pieces.is_empty() { continue; }
+                        let case = Case { data, mask, pieces, gen: "corpus" };
+                        let bytes = case.data.bytes();
+                        let a = build(&kind.build);
+                        let b = build(&kind.build);
+                        let mut pair = Pair { kind: kind.clone(), a, b };
+                        run_case(&mut pair, &case, &bytes, &mut rep, seed);
+                        rep.count("corpus.cases");
+                        let lines_ops: Vec<(Option<Op>, bool)> = ops.iter().map(|o| (Some(o.clone()), false)).collect();
+                        if let Some((rq, an)) = corr_line(kind, &case.data, mask, &lines_ops) { corr.case(&rq, &an); }
+                    }
+                }
+            }
+        }
+    }
+
+    if args.rest.iter().any(|x| x == "corpus-only") {
+        corr.finish();
+        rep.write(&args.out);
+        return;
+    }
+    // one task per (kind, shard); the budget of a kind shrinks with its table size
+    let scale: usize = if thorough { 12 } else { 1 };
+    let mut tasks: Vec<(Kind, usize, usize)> = vec![];
+    for k in &kinds {
+        let shards = if k.table_bytes > (4 << 20) { 4 } else { 2 };
+        for sh in 0..shards {
+            tasks.push((k.clone(), sh, shards));
+        }
+    }
+    let ntasks = tasks.len();
+    let results = par_tasks(ntasks, move |i| {
+        let (kind, sh, shards) = tasks[i].clone();
+        let mut rng = Rng::new(seed ^ 0xC19 ^ ((i as u64) << 20));
+        let mut rep = Report::default();
+        let mut lines: Vec<(String, String)> = vec![];
+        // budgets (cases per shard): compare cost ~ table_bytes
+        let big = kind.table_bytes > (4 << 20);
+        let mid = kind.table_bytes > (600 << 10);
+        let b_short = (if big { 700 } else if mid { 6000 } else { 40000 }) * scale / shards * 2;
+        let b_ring = (if big { 500 } else if mid { 3000 } else { 12000 }) * scale / shards * 2;
+        let b_long = (if big { 120 } else if mid { 300 } else { 600 }) * scale / shards * 2;
+        let b_rep = (if big { 2 } else { 4 }) * scale;
+        let b_short = if kind.family == Family::H10 { b_short / 8 } else { b_short };
+        let mut cases: Vec<Case> = vec![];
+        gen_short_nomask(&kind, &mut rng, b_short, &mut cases);
+        gen_short_ring(&kind, &mut rng, b_ring, &mut cases);
+        gen_long(&kind, &mut rng, b_long, &mut cases);
+        gen_rep(&kind, &mut rng, b_rep, &mut cases);
+        let a = build(&kind.build);
+        let mut alloc = StandardAlloc::default();
+        let b = a.clone_with_alloc(&mut alloc);
+        let mut pair = Pair { kind: kind.clone(), a, b };
+        check_clone(&pair, &mut rep, seed);
+        let ncorr_target = if big { 10 } else if mid { 60 } else { 250 } * scale.min(4);
+        let every = (cases.len() / ncorr_target.max(1)).max(1);
+        let mut last_data: Option<(DataSpec, Vec<u8>)> = None;
+        for (ci, case) in cases.iter().enumerate() {
+            // avoid re-materialising identical data
+            let bytes: Vec<u8> = match (&last_data, &case.data) {
+                (Some((DataSpec::Bytes(p), b)), DataSpec::Bytes(q)) if p.len() == q.len() && p == q => b.clone(),
+                _ => case.data.bytes(),
+            };
+            last_data = Some((case.data.clone(), bytes.clone()));
+            run_case(&mut pair, case, &bytes, &mut rep, seed);
+            if ci % 997 == 0 { check_clone(&pair, &mut rep, seed); }
+            if ci % every == 0 { corr_for_case(&kind, case, &mut rng, &mut lines); }
+        }
+        check_clone(&pair, &mut rep, seed);
+        let _ = sh;
+        (lines, rep)
+    });
+    // at most 2 violations per signature in the report (the counters `viol.<signature>` hold the totals)
+    let mut per_sig: std::collections::BTreeMap<String, usize> = Default::default();
+    for (lines, mut r) in results {
+        for (rq, an) in lines { corr.case(&rq, &an); }
+        let vs = std::mem::take(&mut r.violations);
+        rep.merge(r);
+        for v in vs {
+            let c = per_sig.entry(v.signature.clone()).or_insert(0);
+            *c += 1;
+            if *c <= 2 { rep.violations.push(v); }
+        }
+    }
     corr.finish();
     rep.write(&args.out);
 }
